@@ -10,6 +10,12 @@ CHECKS = {
    text="Generated templates, companions and contexts are loaded, rendered and evaluated as expressions in child processes; every returned error is formatted in all forms. A panic (caught in the worker), a native stack overflow, an abort or a failed allocation larger than the worker's whole address-space limit is a violation attributed to the case that was running and shrunk by re-spawning single-case children. An enumerated grid applies every built-in filter/test/function/loop method to 17 subjects with 0-3 boundary arguments and keyword arguments.",
    note="Three listed findings (deep operator ladders, deeply nested values, block self-recursion) are native stack overflows; they are excluded by construction (ladder length and fuel caps, no self.block() inside blocks) and only their own witnesses are matched. Hangs/oom under the harness limit are counted as inconclusive watchdog hits, not violations.",
    design="3/C01"),
+ "C02": dict(
+   technique="property-based testing with taint markers: generated html/xml programs of the safe-marking-free fragment over tainted context data and literals, validity oracle on the output (no raw < > \" '), plus a metamorphic round trip (unescape(.html rendering) == .txt rendering) on a fragment where captured values are not transformed",
+   level="exploration",
+   text="A flow generator sends tainted strings and captured (safe) values through every string/list filter and operator in every argument position, through macros, call blocks, set/filter blocks, loops, includes, imports and inherited blocks of *.html/*.xml templates; free-mode programs rewritten into the fragment are mixed in. The output must contain none of < > \" '. For programs that only print/pass/store/loop over/join/re-capture captured values, unescaping the html rendering must give exactly the txt rendering (escaped exactly once). Both escaper implementations (speedups off/on).",
+   note="Raw & is not asserted (transforming an already escaped capture legitimately yields &LT; or cut-off entities). Mixed-extension includes are outside the domain.",
+   design="3/C02"),
  "C04": dict(
    technique="property-based testing: metamorphic relation between an expression over literals and every variant with a subset of its literal leaves hoisted into context variables",
    level="exploration",
